@@ -49,6 +49,13 @@ class TroughSuite:
                 cases.append({"n": n, "wells": wells_arg(rng, k, "list")})
         for n in (0, 1, 4, -1):
             cases.append({"n": n, "wells": {"shape": "list", "v": []}})
+        # numpy scalars as n, and several calls re-using one and the same list object
+        for k in (1, 4, 8):
+            for n in ("npfloat:2.5", "npfloat:3.0", "npint:3", "npfloat32:3.5"):
+                cases.append({"n": n, "wells": wells_arg(rng, k, "list")})
+        for k in (2, 3, 4, 8):
+            for seq in ([k + 2, 2 * k + 1, 3], [1, k + 1, 4 * k + 3], [0, 3 * k, k], [2 * k - 1, 2 * k + 1]):
+                cases.append({"n": seq[0], "more": seq[1:], "wells": wells_arg(rng, k, rng.choice(["list", "list", "2d_col"]))})
         return cases
 
     @staticmethod
@@ -60,25 +67,43 @@ class TroughSuite:
             return None
         if n.startswith("str:"):
             return n[4:]
+        if n.startswith("np"):
+            import numpy
+
+            kind, val = n.split(":")
+            return {"npfloat": numpy.float64, "npfloat32": numpy.float32, "npint": numpy.int64}[kind](float(val))
+        if n == "bool":
+            return True
         return float(n)
 
     def run(self, case):
+        import copy
+
         import robotools
 
-        try:
-            out = robotools.get_trough_wells(self._n(case), np_arg(case["wells"]))
-            return {"err": None, "val": [str(w) for w in out], "is_list": isinstance(out, list)}
-        except Exception as e:
-            return {"err": errcode(e), "exc": type(e).__name__}
+        wells = np_arg(case["wells"])
+        original = copy.deepcopy(wells)
+
+        def one(n):
+            try:
+                out = robotools.get_trough_wells(n, wells)
+                return {"err": None, "val": [str(w) for w in out], "is_list": isinstance(out, list)}
+            except Exception as e:
+                return {"err": errcode(e), "exc": type(e).__name__}
+
+        first = one(self._n(case))
+        first["more"] = [one(n) for n in case.get("more", [])]
+        same = (wells == original) if isinstance(wells, (list, str)) else bool((wells == original).all())
+        first["argument_unchanged"] = bool(same)
+        return first
 
     def emit(self, case, obs):
-        n = case["n"]
-        cn = f"(PInt {cz(n)})" if isinstance(n, int) else "PNotInt"
-        return "{| c_n := %s; c_ws := %s; c_out := %s |}" % (
-            cn,
-            carr(case["wells"], cstr),
-            cres(obs, lambda v: clist([cstr(w) for w in v])),
-        )
+        def cn(n):
+            return f"(PInt {cz(n)})" if isinstance(n, int) and not isinstance(n, bool) else "PNotInt"
+
+        out = lambda o: cres(o, lambda v: clist([cstr(w) for w in v]))
+        calls = [(case["n"], obs)] + list(zip(case.get("more", []), obs.get("more", [])))
+        return "{| c_ws := %s; c_calls := %s |}" % (carr(case["wells"], cstr), clist([f"({cn(n)}, {out(o)})" for n, o in calls]))
 
     def nontrivial(self, case, obs):
         if obs.get("err") or not isinstance(case["n"], int):
@@ -94,8 +119,16 @@ class TroughSuite:
 
     # ---- oracle for C19, written from the property text (independent of the model)
     def oracle_C19(self, case, obs):
+        bad = self._oracle_one(case, case["n"], obs)
+        for n, o in zip(case.get("more", []), obs.get("more", [])):
+            bad += [f"later call n={n}: " + b if False else b for b in self._oracle_one(case, n, o)]
+        if obs.get("argument_unchanged") is False:
+            bad.append("argument: the call changed the well collection it was given")
+        return bad[:5]
+
+    def _oracle_one(self, case, nraw, obs):
         bad = []
-        n = self._n(case)
+        n = self._n({"n": nraw})
         w = case["wells"]
         if w["shape"] == "scalar":
             flat = [w["v"]]
@@ -104,7 +137,7 @@ class TroughSuite:
         else:
             rows = w["v"]
             flat = [rows[r][c] for c in range(len(rows[0]) if rows else 0) for r in range(len(rows))]
-        must_reject = (not isinstance(n, int)) or isinstance(n, bool) or n < 0 or len(flat) == 0
+        must_reject = (not isinstance(n, int)) or n < 0 or len(flat) == 0
         if must_reject:
             if not obs.get("err"):
                 bad.append("reject: negative/non-integer n or empty wells was accepted")
